@@ -129,15 +129,43 @@ def check_rule_genuine(rule, allowed, tag="C02"):
     raise Violation(f"{tag}:unknown-rule-form", f"{type(rule).__name__}")
 
 
+def independent_shifts(rule):
+    """The shifts of any rule form of the words world, computed without the library."""
+    if isinstance(rule, EquivalencePathRule):
+        return (0,)
+    if isinstance(rule, VerificationRule):
+        return tuple(0 for _ in rule.children)
+    if isinstance(rule, EquivalenceRule):
+        orig = rule.original_rule
+        full = independent_shifts(orig)
+        if isinstance(orig, ReverseRule):
+            return (full[0],)
+        return (full[list(orig.children).index(rule.children[0])],)
+    if isinstance(rule, ReverseRule):
+        orig = rule.original_rule
+        fwd = WW.true_shifts(orig.strategy, orig.comb_class, orig.children)
+        return WW.true_reverse_shifts(fwd, rule.idx)
+    return WW.true_shifts(rule.strategy, rule.comb_class, rule.children)
+
+
+def check_declared_shifts(rule, tag="C02"):
+    if isinstance(rule, (EquivalencePathRule, VerificationRule)):
+        return
+    want = tuple(independent_shifts(rule))
+    got = tuple(rule.shifts())
+    if got != want:
+        raise Violation(
+            f"{tag}:declared-shifts-wrong",
+            f"{type(rule).__name__} {rule.comb_class} -> {rule.children} ({rule.strategy!r}) declares shifts {got}; what it really reads is {want}",
+        )
+
+
 def rule_triple(rule, label):
-    """(parent, children, shifts) as the fixed-point analysis sees the rule."""
+    """(parent, children, shifts) as an independent fixed-point analysis sees the rule:
+    the shifts are derived from the world, not taken from the library."""
     p = label(rule.comb_class)
     ch = tuple(label(c) for c in rule.children)
-    if isinstance(rule, EquivalencePathRule):
-        return (p, ch, (0,))
-    if isinstance(rule, VerificationRule):
-        return (p, ch, tuple(0 for _ in ch))
-    return (p, ch, tuple(rule.shifts()))
+    return (p, ch, tuple(independent_shifts(rule)))
 
 
 def check_structure(spec, start, allowed, ctx, rules_list=None, tag="C02"):
@@ -176,6 +204,7 @@ def check_structure(spec, start, allowed, ctx, rules_list=None, tag="C02"):
             # interior classes of a path are hidden; nothing else may reference them without a rule
             pass
         check_rule_genuine(rule, allowed, tag)
+        check_declared_shifts(rule, tag)
         triples.append(rule_triple(rule, label))
         if isinstance(rule, ReverseRule) or (isinstance(rule, EquivalenceRule) and isinstance(rule.original_rule, ReverseRule)):
             ctx.probe("reverse_rule_in_spec")
